@@ -276,6 +276,27 @@ def main():
                     probs = [{'problem': 'harness exception', 'error': f'{type(e).__name__}: {e}'[:300]}]
                 if probs:
                     failures.append({'id': f'dlfail{int(use_async)}_{n}', 'class': None, 'case': case, 'detail': probs[:3]})
+    # a restore that fails because SEVERAL downloads fail (half of the chunks are gone), run as a process of its own: the error comes out
+    # AND the process ends.  Known finding D20: a loader thread that asked the (already closed) loop for a slot waits for ever and the
+    # interpreter cannot exit
+    import subprocess
+    demo = os.path.join(os.path.dirname(os.path.dirname(os.path.abspath(__file__))), 'selftest', 'findings', 'D20_demo.py')
+    tree = os.environ.get('REPO', '/repo')
+    hung = 0
+    for attempt in range(2 if tier == 'quick' else 5):
+        cases += 1
+        try:
+            r = subprocess.run([sys.executable, demo, '5', '60'], cwd=tree, capture_output=True, text=True, timeout=12,
+                               env=dict(os.environ, PYTHONPATH=tree))
+            if r.returncode == 0 or 'FileNotFoundError' not in (r.stdout + r.stderr):
+                failures.append({'id': 'failed_restore_outcome', 'class': None, 'case': {'missing_chunks': 'every second chunk'},
+                                 'detail': [{'problem': 'a restore with missing chunks did not end with the error', 'exit': r.returncode, 'tail': (r.stdout + r.stderr)[-300:]}]})
+                break
+        except subprocess.TimeoutExpired:
+            hung += 1
+    if hung:
+        failures.append({'id': 'failed_restore_process_exit', 'class': 'D20', 'case': {'missing_chunks': 'every second chunk', 'concurrent': 5, 'files': 60},
+                         'detail': [{'problem': 'the process of a failed restore did not exit within 12 s (a run that ends takes about 2 s)', 'runs_that_hung': hung}]})
     lib.emit({'status': 'ok', 'cases': cases, 'distinct': cases, 'failures': failures[:10], 'samples': samples,
               'exhaustive': False, 'reproduced': bool(failures)})
 
